@@ -386,6 +386,30 @@ static std::string BucketsOp(const std::vector<std::string> &a) {
   return o.str();
 }
 
+// ---- raw TrieSearch lookups along the chain of child ranges (opened interface) ----------------
+template <class M, class S> static std::string TrieQ(SlotBase *sb, const std::vector<std::string> &a) {
+  M &m = *static_cast<Slot<M>*>(sb)->m;
+  std::vector<lm::WordIndex> ws;
+  for (size_t i = 2; i < a.size(); ++i) ws.push_back(std::strtoul(a[i].c_str(), NULL, 10));
+  std::ostringstream o;
+  typename S::Node node;
+  bool il;
+  uint64_t el;
+  typename S::UnigramPointer u(m.search_.LookupUnigram(ws[0], node, il, el));
+  o << "tq u:" << FBits(u.Prob()) << ":" << FBits(u.Backoff()) << ":" << node.begin << ":" << node.end;
+  unsigned order = m.Order();
+  for (size_t i = 1; i < ws.size(); ++i) {
+    if (i + 1 == order) {
+      typename S::LongestPointer l(m.search_.LookupLongest(ws[i], node));
+      if (!l.Found()) o << " nf"; else o << " l:" << FBits(l.Prob());
+      break;
+    }
+    typename S::MiddlePointer p(m.search_.LookupMiddle(i - 1, ws[i], node, il, el));
+    if (!p.Found()) { o << " nf"; break; }
+    o << " m:" << FBits(p.Prob()) << ":" << FBits(p.Backoff()) << ":" << node.begin << ":" << node.end;
+  }
+  return o.str();
+}
 int main() {
   std::string line;
   while (std::getline(std::cin, line)) {
@@ -443,6 +467,16 @@ int main() {
       r = Guard([&]() { return QuantOp(a); });
     } else if (a[0] == "buckets" && a.size() == 3) {
       r = Guard([&]() { return BucketsOp(a); });
+    } else if (a[0] == "trieq" && a.size() >= 3) {
+      if (!slots.count(a[1])) r = "err noslot";
+      else {
+        SlotBase *sb = slots[a[1]].get();
+        r = sb->type == 2 ? TrieQ<TrieModel, trie::TrieSearch<DontQuantize, trie::DontBhiksha> >(sb, a)
+          : sb->type == 3 ? TrieQ<QuantTrieModel, trie::TrieSearch<SeparatelyQuantize, trie::DontBhiksha> >(sb, a)
+          : sb->type == 4 ? TrieQ<ArrayTrieModel, trie::TrieSearch<DontQuantize, trie::ArrayBhiksha> >(sb, a)
+          : sb->type == 5 ? TrieQ<QuantArrayTrieModel, trie::TrieSearch<SeparatelyQuantize, trie::ArrayBhiksha> >(sb, a)
+          : std::string("err nottrie");
+      }
     } else if (a[0] == "free" && a.size() == 2) {
       slots.erase(a[1]);
       r = "ok";
